@@ -1170,3 +1170,189 @@ func (fc *FC) memRecurrence(mp memphiInfo, name string) (init, next *RF) {
 	}
 	return
 }
+
+// ---- per-iteration element definitions of a result slice ----
+
+// ElemDef: in one loop, element Index of the slice receives Value (a gated
+// value over the loop body: zero — the fresh slice's content — on paths that
+// store nothing).
+type ElemDef struct {
+	Index, Value *RF
+	FC           *FC
+	Where        string
+}
+
+// ElementDefs: how the elements of the slice `res` built by fc are defined,
+// per loop: by indexed stores res[i] = v in a loop of fc or of a helper the
+// slice is handed to (several stores on different branches of one iteration
+// are merged by gating functions), or by one append per iteration to an
+// initially empty slice. ok=false with a reason when the shape is not one of
+// these.
+func (fc *FC) ElementDefs(res *RF) (defs []ElemDef, why string) {
+	s := fc.X.S
+	type loopKey struct {
+		fc *FC
+		h  int
+	}
+	byLoop := map[loopKey][]*ssa.Store{}
+	var order []loopKey
+	for _, sfc := range fc.BoundCallees(1) {
+		sfc := sfc
+		sfc.Ctx.Instrs(func(in ssa.Instruction) {
+			st, ok := in.(*ssa.Store)
+			if !ok {
+				return
+			}
+			ia, ok := st.Addr.(*ssa.IndexAddr)
+			if !ok || !sfc.Val(ia.X).Equal(res) {
+				return
+			}
+			l := sfc.Ctx.LoopOf(st.Block())
+			if l == nil {
+				return
+			}
+			k := loopKey{sfc, l.Header.Index}
+			if _, seen := byLoop[k]; !seen {
+				order = append(order, k)
+			}
+			byLoop[k] = append(byLoop[k], st)
+		})
+	}
+	for _, k := range order {
+		sts := byLoop[k]
+		lfc := k.fc
+		idx := lfc.Val(sts[0].Addr.(*ssa.IndexAddr).Index)
+		for _, st := range sts[1:] {
+			if !lfc.Val(st.Addr.(*ssa.IndexAddr).Index).Equal(idx) {
+				return nil, "stores at different indices in one iteration"
+			}
+		}
+		isStore := map[ssa.Instruction]bool{}
+		for _, st := range sts {
+			isStore[st] = true
+		}
+		l := lfc.Ctx.LoopOf(sts[0].Block())
+		fail := ""
+		var eval func(b *ssa.BasicBlock, cur *RF, depth int) *RF
+		eval = func(b *ssa.BasicBlock, cur *RF, depth int) *RF {
+			if depth > 60 {
+				fail = "loop body too deep"
+				return nil
+			}
+			if il := lfc.Ctx.LoopOf(b); il != nil && !sameLoop(il, l) && il.Header == b {
+				fail = "nested loop in the filling loop"
+				return nil
+			}
+			for _, in := range b.Instrs {
+				if isStore[in] {
+					cur = lfc.Val(in.(*ssa.Store).Val)
+				}
+			}
+			var nexts []*ssa.BasicBlock
+			var exits int
+			for i, sc := range b.Succs {
+				if !lfc.Ctx.EdgeLive(b, i) {
+					continue
+				}
+				if l.Body[sc.Index] {
+					nexts = append(nexts, sc)
+				} else {
+					exits++
+				}
+			}
+			if exits > 0 && b != l.Header {
+				fail = "the filling loop can be left from inside an iteration"
+				return nil
+			}
+			step := func(sc *ssa.BasicBlock) *RF {
+				if sc == l.Header {
+					return cur
+				}
+				return eval(sc, cur, depth+1)
+			}
+			switch len(nexts) {
+			case 0:
+				fail = "iteration does not return to the loop header"
+				return nil
+			case 1:
+				return step(nexts[0])
+			}
+			ifi, ok := b.Instrs[len(b.Instrs)-1].(*ssa.If)
+			if !ok {
+				fail = "unexpected terminator"
+				return nil
+			}
+			tv, fv := step(b.Succs[0]), step(b.Succs[1])
+			if tv == nil || fv == nil {
+				return nil
+			}
+			return s.Ite(lfc.Val(ifi.Cond), tv, fv)
+		}
+		v := eval(l.Header, s.Int(0), 0)
+		if v == nil {
+			return nil, fail
+		}
+		defs = append(defs, ElemDef{Index: idx, Value: v, FC: lfc, Where: fc.X.W.InstrPos(sts[0])})
+	}
+	if len(defs) > 0 {
+		return defs, ""
+	}
+	// append form: res is carried by a loop, starts empty and grows by exactly one element per iteration
+	if at := res.SingleAtom(); at != nil && fc.X.phiOf[at.ID] != nil {
+		pfc := fc.X.phiFC[at.ID]
+		init, next := pfc.Recurrence(res)
+		ia := init.SingleAtom()
+		if ia == nil || !strings.HasPrefix(ia.Name, "makeslice:") || len(ia.Args) == 0 {
+			return nil, "appended slice does not start as a fresh slice"
+		}
+		if z, isC := ia.Args[0].IsConst(); !isC || z.Sign() != 0 {
+			return nil, "appended slice does not start empty"
+		}
+		na := next.SingleAtom()
+		if na == nil || na.Name != "builtin:append" || !na.Args[0].Equal(res) {
+			return nil, "the slice is not extended by exactly one append in every iteration: " + clip(next.String(), 120)
+		}
+		// the appended value: through the variadic argument's backing array
+		ph := fc.X.phiOf[at.ID]
+		l := pfc.Ctx.LoopOf(ph.Block())
+		var vals []*RF
+		for _, c := range pfc.CallsTo("builtin:append") {
+			if l != nil && l.Body[c.Block().Index] && pfc.Val(c.Call.Args[0]).Equal(res) {
+				vals = append(vals, pfc.AppendedValues(c)...)
+			}
+		}
+		if len(vals) != 1 {
+			return nil, "expected one value appended per iteration"
+		}
+		// element k is the value of iteration k: the index is the position at
+		// which the input is read in that iteration
+		var idx *RF
+		for _, ix := range FindFn(vals[0], "idx") {
+			if idx != nil && !idx.Equal(ix.Args[1]) {
+				return nil, "the appended value reads inputs at several indices"
+			}
+			idx = ix.Args[1]
+		}
+		if idx == nil {
+			return nil, "the appended value does not depend on an input element"
+		}
+		// the iteration counter must run 0,1,2,…: idx = c (+1) for a counter c from 0 (-1) by +1
+		ok := false
+		for _, cand := range pfc.loopPhis(idx) {
+			ci, cn := pfc.Recurrence(cand)
+			if !cn.Equal(cand.Add(s.Int(1))) {
+				continue
+			}
+			if first := idx.Subst(map[AtomID]*RF{cand.SingleAtom().ID: ci}); first.Equal(s.Int(0)) {
+				if d, isC := idx.Sub(cand).IsConst(); isC && d.IsInt() {
+					ok = true
+				}
+			}
+		}
+		if !ok {
+			return nil, "the appended value's input index does not run 0,1,2,… with the iterations"
+		}
+		return []ElemDef{{Index: idx, Value: vals[0], FC: pfc, Where: fc.X.W.Pos(ph.Pos())}}, ""
+	}
+	return nil, "no indexed store into the result in a loop and no append loop"
+}
